@@ -70,6 +70,13 @@ def judge_sets(ctx, a, b, res, rp, variant):
         # jaccard_index: missing values are documented to be dropped inside Series only; empty union excluded
         if not estim.is_nan_rat(res["jaccard"]) and (cont == "series" or not has_missing):
             check(ctx, "jaccard_index" + desc, lambda: prs.jaccard_index(A, B), res["jaccard"], f"jaccard_index/{cont}", rp)
+    if not estim.is_nan_rat(res["jaccard"]):
+        for ca, cb in (("series", "list"), ("list", "series"), ("series", "set"), ("ndarray", "series")):
+            # the non-Series side must not hold a missing value (documented behaviour)
+            if (ca != "series" and 0 in a) or (cb != "series" and 0 in b):
+                continue
+            A, B = coll(a, ca, vals, variant), coll(b, cb, vals, variant + 1)
+            check(ctx, f"jaccard_index({ca} {a}, {cb} {b}) [0 = missing]", lambda: prs.jaccard_index(A, B), res["jaccard"], f"jaccard_index/{ca}-{cb}", rp)
 
 
 def _replay_item(ctx, i, item):
